@@ -1,6 +1,24 @@
-"""C15 -- values: layout, tags (leaf part)"""
+"""C15 -- values: layout, tags (leaf part, bit for bit against ValueDefs) and the concurrent clause: a reader
+racing with overwrites of the same key (values of different lengths) returns exactly one of the written
+values -- right bytes, right length -- judged by the verified linearizability checker."""
+import json
+
 from . import common as C
+from . import conc
 from . import leaf
+
+
+def gen_overwrite(rng, shape):
+    sc = conc.gen_scenario(rng, shape, kinds=("put", "put", "get", "get", "uput"), nthreads=rng.choice([2, 3]),
+                           ops_per_thread=rng.choice([1, 2]), scans=rng.random() < 0.3)
+    return sc
+
+
+def conc_part(res):
+    conc.conc_phase(res, "c15", ("lin", "null", "scan", "deadlock"), ["single", "last", "sublayer-last"], (), False,
+                    150 if res.tier == "quick" else 1000,
+                    ("preempt1",) if res.tier == "quick" else ("preempt1", "preempt2", "pct"),
+                    3 if res.tier == "quick" else 12, gen=gen_overwrite, label="overwrite_vs_reader")
 
 
 def run(tier, seed):
@@ -8,10 +26,16 @@ def run(tier, seed):
     res.assumptions = [
         "theorems are about the Coq definitions (coq/*Defs.v); tie: every real leaf function is run on generated "
         "arguments and compared bit for bit with the extracted definitions",
+        "the concurrent clause (old or new value, never a mixture) is explored on the real library under the scheduler "
+        "(sequentially consistent interleavings at hook granularity: the byte copy of a value is one step)",
     ]
-    return leaf.run_leaf_property(res, "c15", leaf.gen_val, leaf.nontrivial_val)
+    return leaf.run_leaf_property(res, "c15", leaf.gen_val, leaf.nontrivial_val, post=conc_part)
 
 
 def replay(path, tier, seed):
+    r = json.load(open(path))
+    if str(r.get("kind", "")).startswith("conc-"):
+        print(json.dumps(r, indent=1)[:3000])
+        return 1
     res = C.Result("C15", tier, seed)
     return leaf.replay(res, "c15", path)
